@@ -60,3 +60,23 @@ CONTRACTS = [
              ensures=TOK_POST),
 ]
 CONTRACTS[-1].repair_strings = True
+
+TRIE = M + 'trie_tree.py::TrieTree'
+
+
+def _trie_scenario(I, loc):
+    """A trie built by the real insert() from two phrases (1-2 symbolic tokens each, symbolic ids)."""
+    pass
+
+
+CONTRACTS += [
+    Contract('c16.trie.insert_then_find.bounded', TRIE + '.find', ['C16'], max_paths=6000,
+             params=dict(a1=Str(3), a2=Str(3), b1=Str(3), q0=Str(3), q1=Str(3), q2=Str(3), ida=Str(3), idb=Str(3), idc=Str(3),
+                         self=Expr('build_trie([[a1, a2], [b1], [a1, a2]], [ida, idb, idc])'),
+                         query_text=Expr('[q0, q1, q2]')),
+             requires=['ida != "" and idb != "" and idc != ""'],
+             ensures=[('exactly-the-occurrences-in-order-with-all-their-ids',
+                       'matches_equal(result, expected_matches([[a1, a2], [b1], [a1, a2]], [ida, idb, idc], [q0, q1, q2]))')],
+             note='BOUNDED stand-in: phrases [a1,a2] (inserted twice with two ids) and [b1], query of three tokens; token values and ids '
+                  'are symbolic (all equality patterns covered), shapes are fixed'),
+]
